@@ -1266,6 +1266,10 @@ class Interp:
             for i in self.prog.inst:
                 if i.kind in ("item",) and i.fn_ty is not None:
                     m.setdefault(i.fn_ty, i)
+            for i in self.prog.inst:
+                for e in i.edges:
+                    if e["k"] == "fnitem":
+                        m.setdefault(e["ty"], self.prog.inst[e["to"]])
             self._callable = m
         return self._callable.get(ty)
 
